@@ -45,16 +45,16 @@ def plan(tier: str, seed: int) -> Plan:
         lists.append([rng.choice(SINGLE) for _ in range(rng.choice([2, 3]))])
     for k, ops in enumerate(lists):
         name = "+".join(o["op"] for o in ops)
-        vleaf = "boolint" if any(o["op"] == "test" for o in ops) else "int"
+        vleaf = ("nbi" if len(ops) < 3 else "boolint") if any(o["op"] == "test" for o in ops) else "optint"  # JSON null is a value like any other
         conds.append(Condition(f"faithful:{k}:{name}", "faithful", H, "faithful", {"ops": ops, "vleaf": vleaf}, T, required=False,
                                bounds="operation list fixed in shape; array index from {0,1,2,3,'-'}, values and document leaves symbolic ints "
-                                      "(bool|int when a test is present); document {a: array len<=2, b: {c}, k}"))
+                                      "or null (null|bool|int when a test is present); document {a: array len<=2, b: {c, '1'}, k, '0'}"))
     for opts in ({"uri_decode": True}, {"unicode_escape": False}, {"uri_decode": True, "unicode_escape": False}, {}):
         conds.append(Condition(f"options:{opts}", "options", H, "options",
                                {"opts": opts, "rawpaths": ["/a%20b/n", "/x\\u0041", "/a b/n", "/a%20b/c", "/n", "/xA"]}, T,
                                bounds="6 pointer texts on which uri_decode / unicode_escape make a difference x 3 operation lists"))
     conds.append(Condition("variants", "variants", H, "variants", {}, T * 2,
-                           bounds="add vs addne vs addap on 12 target locations, document with symbolic leaves and array length<=2"))
+                           bounds="add vs addne vs addap on 16 target locations (digit-named object members included), document with symbolic leaves and array length<=2"))
     return Plan(
         conditions=conds,
         explanation=(
@@ -63,7 +63,7 @@ def plan(tier: str, seed: int) -> Plan:
             "JSONPatch(p.asdicts()) must print the same dicts (each carrying the given op name) and have the same effect on a "
             "symbolic document; after apply the patch and the caller's list are unchanged, a second application to an equal "
             "document gives an equal result, and results share no structure with each other or the patch (container values later "
-            "modified by an operation of the same patch included). addne/addap are compared with add on 12 targets."),
+            "modified by an operation of the same patch included). addne/addap are compared with add on 16 targets."),
         assumptions=["pointer strings are concrete (indices come from a pool of five spellings)"],
         outside=["operation lists longer than 3"],
     )
